@@ -546,3 +546,148 @@ def checks(tier):
                       "in-process and the receiver's completeness is checked against the boundaries in force",
                outside="sockets, subprocess and HTTP transports themselves; C git as the peer; deepen-since / deepen-not", tiers=q),
     ]
+
+
+# ---------------------------------------------------------------------------------------------
+# (g) push and clone directions of the in-process path: the receiver ends up complete for what was transferred
+_c05_g = checks
+
+
+def _alien():
+    """a root commit the sender has never seen, sharing the history's blob b0 / tree t0 (so the receiver can hold content the
+    sender must not assume it lacks or has on the word of an id it cannot resolve)"""
+    b0 = Blob.from_string(b"zero\n")
+    t0 = Tree()
+    t0.add(b"f0", 0o100644, b0.id)
+    c = Commit()
+    c.tree = t0.id
+    c.parents = []
+    c.author = c.committer = WHO
+    c.author_time = c.commit_time = 77
+    c.author_timezone = c.commit_timezone = 0
+    c.message = b"alien"
+    return [b0, t0, c]
+
+
+def h_local_push(eng, tag_target=None, branch_at=None):
+    """LocalGitClient.send_pack fed by the sender's own generate_pack_data (what porcelain.push does): for every history,
+    every complete part of it the receiver already holds (plus, optionally, a ref to a commit the sender has never seen),
+    pushing the branch (and optionally the tag-of-tag) leaves the receiver with the complete, byte-identical closure of every
+    ref the push reports as updated; what it had is still there"""
+    objs, commits, tags, adj = _graph(eng, gitlink=False, tag_target=tag_target)
+    by_id = {o.id: o for o in objs}
+    ds, dt = scratch("c05ps"), scratch("c05pt")
+    src = Repo.init_bare(ds)
+    dst = Repo.init_bare(dt)
+    try:
+        for o in objs:
+            src.object_store.add_object(o)
+        bk = branch_at if branch_at is not None else eng.choice("branch_at", 3)
+        src.refs[b"refs/heads/main"] = commits[bk].id
+        push_tag = eng.bool("push_tag")
+        haves = [c.id for i, c in enumerate(commits) if eng.bool(f"have_c{i}")]
+        for s in _closure(adj, haves):
+            dst.object_store.add_object(by_id[s])
+        for i, h in enumerate(haves):
+            dst.refs[b"refs/heads/have%d" % i] = h
+        if eng.bool("dst_has_alien"):
+            al = _alien()
+            for o in al:
+                dst.object_store.add_object(o)
+            dst.refs[b"refs/heads/alien"] = al[-1].id
+        if eng.bool("dst_packed"):
+            dst.object_store.pack_loose_objects()
+        before = set(dst.object_store)
+        new = {b"refs/heads/main": commits[bk].id}
+        if push_tag:
+            new[b"refs/tags/t2"] = tags[1].id
+
+        def update_refs(refs):
+            refs.update(new)
+            return refs
+        res = LocalGitClient().send_pack(dt, update_refs, src.generate_pack_data)
+        dst.close()
+        dst = Repo(dt)
+        for ref, val in new.items():
+            if (res.ref_status or {}).get(ref) is None:
+                eng.prove(dst.refs[ref] == val, f"push reported success for {ref!r}")
+        need = _closure(adj, [v for k, v in dst.refs.as_dict().items() if v in by_id])
+        for s in sorted(need):
+            try:
+                o = dst.object_store[s]
+                eng.prove(o.as_raw_string() == by_id[s].as_raw_string() and o.type_name == by_id[s].type_name,
+                          "pushed object is byte-identical")
+            except KeyError:
+                eng.fail(f"after a successful push the receiver lacks {type(by_id[s]).__name__} {s[:8]!r} reachable from its refs")
+        for s in before:
+            eng.prove(s in dst.object_store, "what the receiver had is still there")
+        sent = set(dst.object_store) - before
+        eng.prove(sent <= _closure(adj, list(new.values())), "nothing outside the closure of the pushed refs was transferred")
+    finally:
+        src.close()
+        dst.close()
+        shutil.rmtree(ds, ignore_errors=True)
+        shutil.rmtree(dt, ignore_errors=True)
+
+
+def h_local_clone(eng, tag_target=None, branch_at=None):
+    """LocalGitClient.clone of a source whose branch may sit at any commit, with an optional tag-of-tag ref and a second
+    branch: the clone holds the complete, byte-identical closure of every ref it ends up with, and every ref it has names an
+    object of the source"""
+    objs, commits, tags, adj = _graph(eng, gitlink=False, tag_target=tag_target)
+    by_id = {o.id: o for o in objs}
+    ds, dt = scratch("c05cs"), scratch("c05ct")
+    src = Repo.init_bare(ds)
+    dst = None
+    try:
+        for o in objs:
+            src.object_store.add_object(o)
+        src.refs[b"refs/heads/main"] = commits[branch_at if branch_at is not None else eng.choice("branch_at", 3)].id
+        src.refs.set_symbolic_ref(b"HEAD", b"refs/heads/main")
+        if eng.bool("tag_ref"):
+            src.refs[b"refs/tags/t2"] = tags[1].id
+        if eng.bool("side_ref"):
+            src.refs[b"refs/heads/side"] = commits[eng.choice("side_at", 3)].id
+        if eng.bool("src_packed"):
+            src.object_store.pack_loose_objects()
+        dst = LocalGitClient().clone(ds, dt, mkdir=False, bare=eng.bool("bare"))
+        refs = dst.refs.as_dict()
+        eng.prove(any(v == src.refs[b"refs/heads/main"] for v in refs.values()), "the clone has a ref at the source's branch")
+        for k, v in refs.items():
+            eng.prove(v in by_id, f"clone ref {k!r} names an object of the source")
+        for s in sorted(_closure(adj, [v for v in refs.values() if v in by_id])):
+            try:
+                o = dst.object_store[s]
+                eng.prove(o.as_raw_string() == by_id[s].as_raw_string(), "cloned object is byte-identical")
+            except KeyError:
+                eng.fail(f"the clone lacks {type(by_id[s]).__name__} {s[:8]!r} reachable from its refs")
+        if refs.get(b"refs/tags/t2"):
+            eng.prove(refs[b"refs/tags/t2"] == tags[1].id, "tag ref cloned unpeeled")
+    finally:
+        src.close()
+        if dst is not None:
+            dst.close()
+        shutil.rmtree(ds, ignore_errors=True)
+        shutil.rmtree(dt, ignore_errors=True)
+
+
+def checks(tier):
+    q = ("quick", "thorough")
+    return _c05_g(tier) + [
+        KCheck("C05g.local_push", h_local_push, parts=[{"tag_target": k, "branch_at": b} for k in range(3) for b in range(3)],
+               encoded=["dulwich.client.LocalGitClient.send_pack", "dulwich.repo.BaseRepo.generate_pack_data",
+                        "dulwich.object_store.MissingObjectFinder", "dulwich.pack.write_pack_from_container",
+                        "dulwich.object_store.DiskObjectStore.add_pack_data"],
+               bounds="every history of 3 commits (all parent sets, two trees sharing a subtree, tag and tag-of-tag on any commit) "
+                      "in a real source repository (loose objects); receiver holding the closure of any subset of the commits "
+                      "(loose or packed) and optionally a branch at a commit the sender has never seen that shares content with the "
+                      "history; push of the branch at any commit, with or without the tag-of-tag",
+               outside="receive-pack over pkt-line with thin packs (C06a/C02h cover its status and pack completion); network "
+                       "transports; C git peers", time_budget=2400, tiers=q),
+        KCheck("C05h.local_clone", h_local_clone, parts=[{"tag_target": k, "branch_at": b} for k in range(3) for b in range(3)],
+               encoded=["dulwich.client.LocalGitClient.clone", "dulwich.client.LocalGitClient.fetch", "dulwich.repo.BaseRepo.fetch_pack_data",
+                        "dulwich.object_store.MissingObjectFinder", "dulwich.repo.Repo._init_maybe_bare/reset_index"],
+               bounds="same histories; source branch at any commit, optional tag-of-tag ref, optional second branch at any commit, "
+                      "loose or packed; bare and non-bare clone (with checkout)",
+               outside="depth-limited and filtered clones; network transports; bundle URIs", time_budget=2400, tiers=q),
+    ]
